@@ -2,8 +2,12 @@
 package c01
 
 import (
+	"bytes"
 	"encoding/json"
 	"fmt"
+	"os"
+	"os/exec"
+	"path/filepath"
 	"strings"
 
 	"github.com/ipld/go-ipld-prime/datamodel"
@@ -175,6 +179,74 @@ func Main(r *core.Run) {
 		every = 1
 	}
 	c08.RunRoutes(r, []typed.Engine{typed.NewBindEngine()}, rs.Families(quick), every)
+	// generated code: the same route deviations, in the binary that links the packages generated from
+	// the working tree (a worker process; its counters and findings are merged into this run)
+	generatedPart(r)
+	// the Any type itself as a builder root (the families use it below structs, lists and maps only):
+	// default route only, one signature per level and kind of value
+	for _, s := range rs.Families(quick) {
+		if s.Types["HasAny"] == nil {
+			continue
+		}
+		for _, v := range s.Values(s.T("Any"), 0) {
+			for _, repr := range []bool{false, true} {
+				c := AnyRootCase{s.Name, v, repr}
+				r.Report("any-root", c, CheckAnyRoot(s, c))
+				r.States.Add(1)
+				r.Transitions.Add(1)
+				r.Evals.Add(1)
+				r.Traces.Add(1)
+				r.Outcome("bindnode/any-root")
+			}
+		}
+	}
+}
+
+func generatedPart(r *core.Run) {
+	bin := filepath.Join(core.VerifDir, ".work", "bin", "mctyped")
+	cmd := exec.Command(bin, "C01-generated-worker", r.Tier)
+	var out, errb bytes.Buffer
+	cmd.Stdout, cmd.Stderr = &out, &errb
+	if err := cmd.Run(); err != nil {
+		fmt.Fprintf(os.Stderr, "CHECK-BROKEN: generated-code worker of C01 failed: %v: %s\n", err, errb.String())
+		os.Exit(2)
+	}
+	var p core.Partial
+	if err := json.Unmarshal(out.Bytes(), &p); err != nil {
+		fmt.Fprintf(os.Stderr, "CHECK-BROKEN: generated-code worker of C01: unreadable result: %v\n", err)
+		os.Exit(2)
+	}
+	r.ImportPartial(p, "-generated")
+	r.Set("generated_code_part", map[string]any{"worker": "mctyped C01-generated-worker", "cases": p.States, "builder_runs": p.Transitions})
+}
+
+// AnyRootCase: a value built by the builder of a prototype bound to the schema type Any itself.
+type AnyRootCase struct {
+	Schema string  `json:"schema"`
+	V      ref.Val `json:"value"`
+	Repr   bool    `json:"representation_level"`
+}
+
+func CheckAnyRoot(s *rs.Schema, c AnyRootCase) (fs []core.Finding) {
+	lvl := map[bool]string{false: "type", true: "repr"}[c.Repr]
+	var got ref.Val
+	var err error
+	pan := core.Guard(func() {
+		var n datamodel.Node
+		n, err = ref.Build(typed.NewBindEngine().Proto(s, "Any", c.Repr), c.V)
+		if err == nil {
+			got = ref.ReadTyped(n)
+		}
+	})
+	switch {
+	case pan != "":
+		fs = append(fs, core.F(fmt.Sprintf("bindnode/any-root/%s/panic(%s)", lvl, c.V.K), "bindnode %s.Any %s-level builder, value %s: %s", s.Name, lvl, c.V, pan))
+	case err != nil:
+		fs = append(fs, core.F(fmt.Sprintf("bindnode/any-root/%s/rejects(%s)", lvl, c.V.K), "bindnode %s.Any %s-level builder, value %s: %v", s.Name, lvl, c.V, err))
+	case !ref.Equal(got, c.V):
+		fs = append(fs, core.F(fmt.Sprintf("bindnode/any-root/%s/reads-differently(%s)", lvl, c.V.K), "bindnode %s.Any %s-level builder, value %s: the built node reads %s", s.Name, lvl, c.V, got))
+	}
+	return fs
 }
 
 func Replay(r *core.Run, mode string, raw json.RawMessage) {
@@ -193,6 +265,14 @@ func Replay(r *core.Run, mode string, raw json.RawMessage) {
 			if s.Name == c.Schema {
 				fs, _ := c08.CheckRoutes(typed.NewBindEngine(), s, c)
 				r.Report("routes", c, fs)
+			}
+		}
+	case "any-root":
+		var c AnyRootCase
+		json.Unmarshal(raw, &c)
+		for _, s := range rs.Families(false) {
+			if s.Name == c.Schema {
+				r.Report("any-root", c, CheckAnyRoot(s, c))
 			}
 		}
 	case "equal":
